@@ -6,6 +6,7 @@ import dataclasses
 import functools
 import hashlib
 import inspect
+import os
 import sys
 import textwrap
 import time
@@ -45,6 +46,9 @@ class Engine(OpsMixin):
     def __init__(self, loop_bound=300, solver_timeout_ms=60000):
         self.solver = z3.Solver()
         self.solver.set("timeout", solver_timeout_ms)
+        self.solver_timeout_ms = solver_timeout_ms
+        self.real_mode = False
+        self.fresh_solver = None
         self.loop_bound = loop_bound
         self.ast_cache = {}
         self.func_hashes = {}
@@ -72,6 +76,14 @@ class Engine(OpsMixin):
         self.divmod_cache = {}
         self.fp_origin = {}
         self.fp_pack_cache = {}
+        self.rn_cache = {}
+        self.var_bounds = {}
+        self.ib_memo = {}
+        self.ideal_of = {}
+        self.keep = []
+        self.defs = {}
+        self.real_mode = False
+        self.fresh_solver = None
         self.fresh_n = 0
         self.nondet_n = {}
         self.inputs = {}       # name -> (kind, sym/terms) for model extraction
@@ -101,7 +113,7 @@ class Engine(OpsMixin):
             except RecursionError:
                 raise Unsupported("recursion limit")
             except Exception as e:  # escaped from the harness
-                import os
+                pass
                 if os.environ.get("PYSYM_TRACE"):
                     import traceback
                     traceback.print_exc()
@@ -120,12 +132,56 @@ class Engine(OpsMixin):
     # ----------------------------------------------------------------------- solver plumbing
     def check(self, *extra):
         t0 = time.time()
-        r = self.solver.check(*extra)
+        if self.real_mode:
+            # mixed integer/real enclosure constraints: a fresh solver per query (with preprocessing) is orders of
+            # magnitude faster than the long-lived incremental one
+            # (mini-portfolio: these queries are search-luck sensitive; measured on 43 slow ones: default 206 s,
+            # eager_eq_axioms=false 10 s, phase_selection=5 16 s)
+            budget = self.solver_timeout_ms
+            for cfg, ms in (({"smt.arith.eager_eq_axioms": False}, 8000),
+                            ({"smt.arith.eager_eq_axioms": False, "smt.phase_selection": 5}, 15000),
+                            ({"smt.arith.eager_eq_axioms": False, "smt.random_seed": 3}, None)):
+                fs = z3.Solver()
+                ms = min(ms, budget) if ms is not None else budget
+                fs.set("timeout", max(1000, ms))
+                for k, v in cfg.items():
+                    fs.set(k, v)
+                fs.add(*self.pc)
+                fs.add(*extra)
+                r = fs.check()
+                self.fresh_solver = fs
+                budget -= ms
+                if r != z3.unknown or budget <= 0:
+                    break
+        else:
+            r = self.solver.check(*extra)
         self.stats["solver_s"] += time.time() - t0
+        if os.environ.get("PYSYM_CHECKLOG"):
+            with open(os.environ["PYSYM_CHECKLOG"], "a") as f:
+                f.write("%.3f %s %d %s\n" % (time.time() - t0, r, len(self.pc), " | ".join(str(e)[:150].replace("\n", " ") for e in extra)))
+        if time.time() - t0 > 2:
+            if os.environ.get("PYSYM_SLOW"):
+                n = self.__dict__.setdefault("slow_n", 0)
+                self.slow_n = n + 1
+                with open(os.environ["PYSYM_SLOW"] + ".%d.smt2" % n, "w") as f:
+                    f.write("; %.1fs %s\n" % (time.time() - t0, r))
+                    f.write(self.solver.sexpr())
+                    for e in extra:
+                        f.write("\n(assert %s)" % e.sexpr())
+                    f.write("\n(check-sat)\n")
         self.stats["checks"] += 1
         if r == z3.unknown:
-            raise SolverUnknown(self.solver.reason_unknown())
+            if os.environ.get("PYSYM_DUMP"):
+                with open(os.environ["PYSYM_DUMP"], "w") as f:
+                    f.write(self.solver.sexpr())
+                    for e in extra:
+                        f.write("\n(assert %s)" % e.sexpr())
+                    f.write("\n(check-sat)\n")
+            raise SolverUnknown((self.fresh_solver if self.real_mode else self.solver).reason_unknown())
         return r
+
+    def cur_model(self):
+        return self.fresh_solver.model() if (self.real_mode and self.fresh_solver is not None) else self.solver.model()
 
     def add_fact(self, t):
         """definitional constraint over fresh variables (always satisfiable): no feasibility check"""
@@ -142,7 +198,7 @@ class Engine(OpsMixin):
             r = self.check()
             if r != z3.sat:
                 raise PathAbort()
-            self.model = self.solver.model()
+            self.model = self.cur_model()
         return self.model
 
     def model_truth(self, cond):
@@ -181,7 +237,7 @@ class Engine(OpsMixin):
         if r == z3.unsat:
             raise PathAbort()
         try:
-            self.model = self.solver.model()
+            self.model = self.cur_model()
         except z3.Z3Exception:
             print("DEBUG assume: r=", r, "cond=", str(t)[:300], flush=True)
             self.model = None
@@ -194,6 +250,10 @@ class Engine(OpsMixin):
             return True
         if z3.is_false(cond):
             return False
+        if self.var_bounds:
+            iv = self.interval_truth(cond)
+            if iv is not None:
+                return iv
         if self.pos < len(self.decisions):
             d = self.decisions[self.pos]
             if not isinstance(d, bool):
@@ -207,7 +267,7 @@ class Engine(OpsMixin):
             # model could not evaluate: explicit check
             if self.check(cond) == z3.sat:
                 mv = True
-                self.model = self.solver.model()
+                self.model = self.cur_model()
             else:
                 mv = False
         other = z3.Not(cond) if mv else cond
@@ -244,6 +304,8 @@ class Engine(OpsMixin):
                 return True
             if v.quot is not None:
                 return self.truth(v.quot[0]) if False else self.truth(self.cmp("NotEq", v.quot[0], 0))
+            if v.real is not None:
+                return self.decide(v.real != 0)
             return self.decide(z3.Not(z3.fpIsZero(self.to_fp(v))))
         if isinstance(v, Opaque):
             raise Unsupported("truth value of opaque payload")
@@ -363,12 +425,12 @@ class Engine(OpsMixin):
                 rts.append(rt)
             not_any = [z3.Not(zbool(rt)) if isinstance(rt, SymBool) else z3.BoolVal(not rt) for rt in rts]
             if self.check(*(cons + not_any)) == z3.sat:
-                outside_model = self.solver.model()
+                outside_model = self.cur_model()
             else:
                 for reg, rt in zip(regions, rts):
                     c = zbool(rt) if isinstance(rt, SymBool) else z3.BoolVal(bool(rt))
                     if self.check(*(cons + [c])) == z3.sat:
-                        self.violations.append(dict(site=site, known=reg["id"], inputs=self.extract_inputs(self.solver.model()),
+                        self.violations.append(dict(site=site, known=reg["id"], inputs=self.extract_inputs(self.cur_model()),
                                                     exc=type(exc).__name__ if exc else None))
             if outside_model is None:
                 return
@@ -376,7 +438,7 @@ class Engine(OpsMixin):
         else:
             if self.check(*cons) != z3.sat:
                 return
-            model = self.solver.model()
+            model = self.cur_model()
         self.violations.append(dict(site=site, known=None, inputs=self.extract_inputs(model),
                                     exc=type(exc).__name__ if exc else None,
                                     where=_exc_where(exc) if exc else None))
@@ -1230,8 +1292,47 @@ class Engine(OpsMixin):
     def e_Lambda(self, e, f):
         return Closure(e, f)
 
+    @staticmethod
+    def _simple_expr(n):
+        """side-effect- and exception-free expression: constants, names, + - * and unary minus of those"""
+        if isinstance(n, (ast.Constant, ast.Name)):
+            return True
+        if isinstance(n, ast.BinOp) and isinstance(n.op, (ast.Add, ast.Sub, ast.Mult)):
+            return Engine._simple_expr(n.left) and Engine._simple_expr(n.right)
+        if isinstance(n, ast.UnaryOp) and isinstance(n.op, (ast.USub, ast.UAdd)):
+            return Engine._simple_expr(n.operand)
+        return False
+
+    @staticmethod
+    def _simple_cond(n):
+        """pure boolean expression: comparisons (== != < <= > >=) of simple expressions, combined with and / or / not"""
+        if isinstance(n, ast.Compare):
+            return all(isinstance(o, (ast.Eq, ast.NotEq, ast.Lt, ast.LtE, ast.Gt, ast.GtE)) for o in n.ops) and \
+                Engine._simple_expr(n.left) and all(Engine._simple_expr(c) for c in n.comparators)
+        if isinstance(n, ast.BoolOp):
+            return all(Engine._simple_cond(v) for v in n.values)
+        if isinstance(n, ast.UnaryOp) and isinstance(n.op, ast.Not):
+            return Engine._simple_cond(n.operand)
+        return False
+
     def e_IfExp(self, e, f):
-        return self.eval(e.body, f) if self.truth(self.eval(e.test, f)) else self.eval(e.orelse, f)
+        c = self.eval(e.test, f)
+        if isinstance(c, SymBool) and self._simple_expr(e.body) and self._simple_expr(e.orelse):
+            # both arms are pure: merge into one if-then-else term instead of forking the path
+            try:
+                a, b = self.eval(e.body, f), self.eval(e.orelse, f)
+            except (NameError, TypeError):
+                a = b = None
+            if isinstance(a, str) and isinstance(b, str) and len(a) == 1 and len(b) == 1:
+                return mkstr([self.define_var("ite", z3.If(c.t, z3.IntVal(ord(a)), z3.IntVal(ord(b))), min(ord(a), ord(b)), max(ord(a), ord(b)))])
+            if isinstance(a, (int, SymInt)) and isinstance(b, (int, SymInt)) and not isinstance(a, bool) and not isinstance(b, bool):
+                r = mkint(z3.If(c.t, zint(a), zint(b)))
+                if isinstance(r, SymInt):
+                    la, lb = self.ibounds(zint(a)), self.ibounds(zint(b))
+                    if None not in la and None not in lb:
+                        return self.define_var("ite", r.t, min(la[0], lb[0]), max(la[1], lb[1]))
+                return r
+        return self.eval(e.body, f) if self.truth(c) else self.eval(e.orelse, f)
 
     def e_NamedExpr(self, e, f):
         v = self.eval(e.value, f)
@@ -1239,6 +1340,19 @@ class Engine(OpsMixin):
         return v
 
     def e_BoolOp(self, e, f):
+        if len(e.values) > 1 and all(self._simple_cond(v) for v in e.values):
+            # pure comparisons: one boolean term instead of a fork per operand (evaluation is side-effect free; if
+            # an operand cannot be evaluated eagerly - e.g. a TypeError python would have short-circuited away - fall
+            # back to the sequential semantics)
+            try:
+                vals = [self.eval(v, f) for v in e.values]
+            except (TypeError, NameError, AttributeError):
+                vals = None
+            if vals is not None and all(isinstance(v, (bool, SymBool)) for v in vals) and any(isinstance(v, SymBool) for v in vals):
+                r = vals[0]
+                for v in vals[1:]:
+                    r = self.and_(r, v) if isinstance(e.op, ast.And) else self.or_(r, v)
+                return r
         if isinstance(e.op, ast.And):
             v = True
             for x in e.values:
@@ -1278,6 +1392,14 @@ class Engine(OpsMixin):
             right = self.eval(r, f)
             c = self.compare(op, left, right)
             if i < n - 1:
+                if isinstance(c, SymBool) and all(self._simple_expr(x) for x in e.comparators[i + 1:]):
+                    # chained comparison of pure operands: conjoin instead of forking
+                    acc = c
+                    for op2, r2 in zip(e.ops[i + 1:], e.comparators[i + 1:]):
+                        nxt = self.eval(r2, f)
+                        acc = self.and_(acc, self.compare(op2, right, nxt))
+                        right = nxt
+                    return acc
                 if not self.truth(c):
                     return False
             result = c
@@ -1403,6 +1525,22 @@ class Engine(OpsMixin):
                     raise Unsupported("dict subclass miss with symbolic key")
                 raise KeyError(_ExcArg(idx))
             return obj[idx]
+        if isinstance(idx, SymInt) and isinstance(obj, (list, tuple, str)) and len(obj) > 4 and \
+                all(isinstance(x, str) and len(x) == 1 for x in obj):
+            # table of single characters indexed by a symbolic int: one if-then-else chain instead of one path per entry
+            inr = self.and_(self.cmp("GtE", idx, 0), self.cmp("Lt", idx, len(obj)))
+            if self.truth(inr):
+                # runs of entries with ord(entry) - index constant collapse into one linear piece each
+                runs = []
+                for k, ch in enumerate(obj):
+                    off = ord(ch) - k
+                    if runs and runs[-1][1] == off:
+                        continue
+                    runs.append((k, off))
+                t = idx.t + runs[-1][1]
+                for (k0, off), (k1, _) in zip(reversed(runs[:-1]), reversed(runs[1:])):
+                    t = z3.If(idx.t < k1, idx.t + off, t)
+                return mkstr([self.define_var("tab", t, min(ord(x) for x in obj), max(ord(x) for x in obj))])
         if is_sym(idx) and isinstance(obj, (list, tuple, str, bytes, bytearray, range)):
             return obj[self.conc_index(idx, len(obj), "%s index out of range" % type(obj).__name__)]
         ga = _find_in_mro(type(obj), "__getitem__")
@@ -1538,6 +1676,13 @@ class Engine(OpsMixin):
         for i in range(nd):
             if i == nd - 1:
                 d = rest
+                if isinstance(d, SymInt):
+                    # the leading digit as a variable of its own with its range known statically (cheap interval
+                    # decisions on the character later on)
+                    dv = z3.Int("_dg_%d" % self.fresh_id())
+                    self.add_fact(dv == d.t)
+                    self.set_bounds(dv, 1 if nd > 1 else 0, 9)
+                    d = SymInt(dv)
             else:
                 d = self.op("Mod", rest, 10)
                 rest = self.op("FloorDiv", rest, 10)
